@@ -118,10 +118,36 @@ func genC19(seed uint64, tier string) *plan.Plan {
 	// the destroyed DMap accepts new writes
 	p2.Ops = append(p2.Ops, ent(plan.Op{K: "put", DM: A, Key: keysA[0], Val: "after-destroy"}), ent(plan.Op{K: "get", DM: A, Key: keysA[0]}))
 	p2.Ops = append(p2.Ops, ent(plan.Op{K: "get", DM: B, Key: keysA[0]}))
+	// phase 3: Destroy again and again. Between two Destroys the DMap is written only through the
+	// handles the clients already hold (embedded handles write straight into the owner's fragments),
+	// and the next Destroy follows at once or a little later (background eviction visits the new
+	// fragments meanwhile); after the last one nothing of it may be left anywhere.
+	p3 := plan.Script{ID: 1, Kind: "ctl"}
+	var rkeys []string
+	for rd, nrd := 0, r.Range(1, 3); rd < nrd; rd++ {
+		p3.Ops = append(p3.Ops, ent(plan.Op{K: "destroy", DM: A}))
+		for i, nk := 0, r.Range(3, 12); i < nk; i++ {
+			k := fmt.Sprintf("r%d", r.Intn(16))
+			rkeys = append(rkeys, k)
+			vn++
+			p3.Ops = append(p3.Ops, plan.Op{K: "put", DM: A, Key: k, Val: fmt.Sprintf("%s-r%d", A, vn), Tag: Pick(r, "emb", "emb", "emb", "cc"), M: r.Intn(n)})
+		}
+		p3.Ops = append(p3.Ops, plan.Op{K: "ctl.sleep", Dur: int64(Pick(r, 0, 1, 20, 80, 400))})
+	}
+	p3.Ops = append(p3.Ops, ent(plan.Op{K: "destroy", DM: A}))
+	for _, k := range append(rkeys, keysA[0]) {
+		p3.Ops = append(p3.Ops, plan.Op{K: "ctl.get_all", DM: A, Key: k}, plan.Op{K: "ctl.copies", DM: A, Key: k})
+	}
+	p3.Ops = append(p3.Ops, plan.Op{K: "scan", DM: A, Tag: "emb", M: r.Intn(n)}, plan.Op{K: "scan", DM: A, Tag: "cc"})
+	for m := 0; m < n; m++ {
+		p3.Ops = append(p3.Ops, plan.Op{K: "ctl.stats", M: m})
+	}
+	p3.Ops = append(p3.Ops, plan.Op{K: "scan", DM: B, Tag: Pick(r, "emb", "cc"), M: r.Intn(n)})
 	p.Phases = []plan.Phase{
 		{Name: "fill", Clients: []plan.Script{p0}},
 		{Name: "destroy", Yields: true, Clients: []plan.Script{p1a, p1b}},
 		{Name: "verify", Clients: []plan.Script{p2}},
+		{Name: "redestroy", Clients: []plan.Script{p3}},
 	}
 	p.DMap = A
 	p.Variant = fmt.Sprintf("%s|%s/keys%d", A, B, len(keysA))
